@@ -367,6 +367,13 @@ func c14Alphabet(thorough bool) []c14Inv {
 	add(a, "rotate", "13")
 	add(a, "split", "15")
 	add([]string{"M"}, "pick", "2,1")
+	add([]string{"M", "P"}, "pick", "1-2")
+	add([]string{"M"}, "pick", "2-")
+	add([]string{"M"}, "pick", "-1")
+	add([]string{"M"}, "pick", "-f", "1-2")
+	add([]string{"M"}, "pick", "-f", "2-")
+	add([]string{"M"}, "pick", "-f", "-2")
+	add([]string{"M"}, "pick", "-f", "1,3-")
 	_ = thorough
 	return out
 }
